@@ -236,6 +236,15 @@ def run_family(ctx, r, index):
         if d:
             raise Violation('C17/form-wrong-content/' + nm, '%s; case=%r' %
                             ('; '.join(d), desc))
+        # ... and nothing else: the cells the table lists as non-zero are
+        # the non-zero cells of the matrix (a cancelled pair of entries or a
+        # zero in the input is not a value)
+        listed = sorted((str(a), str(b)) for a, b in t.nonzero())
+        want_nz = sorted((obs[i], samp[j]) for i, j in zip(*np.nonzero(D)))
+        if listed != want_nz:
+            raise Violation('C17/form-lists-other-cells/' + nm, 'nonzero() '
+                            'lists %r, the non-zero cells are %r; case=%r' %
+                            (listed, want_nz, desc))
         tabs.append((nm, t))
         ctx.cls('form', nm)
         ctx.count('forms_compared')
